@@ -185,6 +185,9 @@ func runNotif(seed int64, histories, steps int, out *Emitter) {
 				"inboxes": c.inboxesJ(actors), "all": c.allNotifsJ(), "actors": actors})
 			out.Count("notif."+opKind(op), res.OK)
 		}
+		if withGenesis {
+			genesisRoundTrip(c, hi, "notif", out)
+		}
 		c.Close()
 	}
 }
